@@ -1288,6 +1288,30 @@ func (db *DB) TruncateJournal(ctx context.Context) error {
 	return err
 }
 
+// ShrinkJournal cuts a finalised journal file down to size bytes. SQLite does
+// so after a PERSIST-mode commit has zeroed the journal header when a
+// journal_size_limit is set. A journal whose header is still valid holds the
+// rollback information of a running transaction and is left alone.
+func (db *DB) ShrinkJournal(ctx context.Context, size int64) (err error) {
+	defer func() {
+		TraceLog.Printf("[ShrinkJournal(%s)]: size=%d %s", db.name, size, errorKeyValue(err))
+	}()
+
+	if ok, err := db.isJournalHeaderValid(); err != nil && err != io.EOF && err != io.ErrUnexpectedEOF {
+		return err
+	} else if ok {
+		return fmt.Errorf("cannot shrink the journal of a running transaction")
+	}
+
+	fi, err := db.os.Stat("SHRINKJOURNAL", db.JournalPath())
+	if err != nil {
+		return err
+	} else if fi.Size() <= size {
+		return nil
+	}
+	return db.os.Truncate("SHRINKJOURNAL", db.JournalPath(), size)
+}
+
 // SyncJournal fsync's the journal file.
 func (db *DB) SyncJournal(ctx context.Context) (err error) {
 	defer func() {
